@@ -96,63 +96,11 @@ func (a *Analyzer) SortedCopy(rule string, fn *ssa.Function, elemType string) {
 		n++
 		construct := fmt.Sprintf("sorted-copy:%s:range %s", load.FuncName(fn), exprKey(rs.X))
 		pos := a.pos(rs.Pos())
-		id, ok := ast.Unparen(rs.X).(*ast.Ident)
-		if !ok {
-			a.R.Bad(rule, construct, pos, "ranges "+exprKey(rs.X)+" directly: output order follows the caller's order of type definitions")
-			return true
-		}
-		obj := objOf(info, id)
-		fresh, sorted, copied := false, false, false
-		why := ""
-		path := pathTo(body, rs)
-		if path == nil {
-			a.R.Unknown(rule, construct, pos, "loop not located")
-			return true
-		}
-		fr := path[len(path)-1]
-		for _, st := range fr.list[:fr.idx] {
-			switch s := st.(type) {
-			case *ast.AssignStmt:
-				for i, l := range s.Lhs {
-					lid, ok := l.(*ast.Ident)
-					if !ok || objOf(info, lid) != obj || i >= len(s.Rhs) {
-						continue
-					}
-					fresh, sorted, copied = false, false, false
-					if call, ok := s.Rhs[i].(*ast.CallExpr); ok {
-						if fid, ok := call.Fun.(*ast.Ident); ok && fid.Name == "make" {
-							fresh = true
-						}
-						if cf, _ := typeutil.Callee(info, call).(*types.Func); cf != nil && cf.Pkg() != nil && cf.Pkg().Path() == "slices" && cf.Name() == "Clone" {
-							fresh, copied = true, true
-						}
-					}
-				}
-			case *ast.ExprStmt:
-				call, ok := s.X.(*ast.CallExpr)
-				if !ok {
-					continue
-				}
-				if fid, ok := call.Fun.(*ast.Ident); ok && fid.Name == "copy" && len(call.Args) == 2 {
-					if did, ok := ast.Unparen(call.Args[0]).(*ast.Ident); ok && objOf(info, did) == obj {
-						copied = true
-					}
-					continue
-				}
-				if ok, w := a.sortCall(info, call, obj); ok {
-					sorted = true
-				} else if w != "" {
-					why = w
-				}
-			}
-		}
-		switch {
-		case !fresh || !copied:
-			a.R.Bad(rule, construct, pos, id.Name+" is not a fresh copy (make+copy / slices.Clone) of the model's type definitions")
-		case !sorted:
-			a.R.Bad(rule, construct, pos, id.Name+" is not sorted by a total comparator before the loop. "+why)
-		default:
+		sorted, why := a.isSortedCopy(info, body, rs)
+		if sorted {
 			a.R.OK(rule, construct, pos, "make+copy+sort", "types are visited in sorted order on a private copy")
+		} else {
+			a.R.Bad(rule, construct, pos, why)
 		}
 		return true
 	})
@@ -169,8 +117,10 @@ var entropyFuncs = map[string]bool{"time.Now": true, "time.Since": true, "time.U
 
 // Taint is the result of the entropy analysis.
 type Taint struct {
-	Vals    map[ssa.Value]bool
-	Fields  map[*types.Var]bool
+	Vals    map[ssa.Value]bool  // the value (for containers: its elements / map values) is entropy-derived
+	Fields  map[*types.Var]bool // field-based: what is stored in the field
+	Keys    map[ssa.Value]bool  // map whose keys are entropy-derived (selection by key is by design, not a taint of the value)
+	FKeys   map[*types.Var]bool
 	Sources []string
 }
 
@@ -194,7 +144,7 @@ func isEntropyCall(c *ssa.CallCommon) (string, bool) {
 // Entropy runs the taint propagation over funcs and reports sinks under rule.
 // attrSink additionally treats stores into gonum encoding.Attribute values as sinks (DOT text).
 func (a *Analyzer) Entropy(rule string, funcs []*ssa.Function, attrSink bool) {
-	t := &Taint{Vals: map[ssa.Value]bool{}, Fields: map[*types.Var]bool{}}
+	t := &Taint{Vals: map[ssa.Value]bool{}, Fields: map[*types.Var]bool{}, Keys: map[ssa.Value]bool{}, FKeys: map[*types.Var]bool{}}
 	inSet := map[*ssa.Function]bool{}
 	for _, f := range funcs {
 		inSet[f] = true
@@ -245,6 +195,31 @@ func (a *Analyzer) Entropy(rule string, funcs []*ssa.Function, attrSink bool) {
 		case *ssa.Phi:
 			for _, e := range x.Edges {
 				mark(e)
+			}
+		}
+	}
+	var markKeyOrigin func(v ssa.Value, depth int)
+	markKeyOrigin = func(v ssa.Value, depth int) {
+		if depth > 6 {
+			return
+		}
+		if !t.Keys[v] {
+			t.Keys[v] = true
+			changed = true
+		}
+		switch x := v.(type) {
+		case *ssa.UnOp:
+			if x.Op == token.MUL {
+				if fa, ok := x.X.(*ssa.FieldAddr); ok {
+					if f := fieldOf(fa.X, fa.Field); f != nil && !t.FKeys[f] {
+						t.FKeys[f] = true
+						changed = true
+					}
+				}
+			}
+		case *ssa.Phi:
+			for _, e := range x.Edges {
+				markKeyOrigin(e, depth+1)
 			}
 		}
 	}
@@ -321,8 +296,14 @@ func (a *Analyzer) Entropy(rule string, funcs []*ssa.Function, attrSink bool) {
 							mark(v)
 						}
 						if v.Op == token.MUL {
-							if fa, ok := v.X.(*ssa.FieldAddr); ok && t.Fields[fieldOf(fa.X, fa.Field)] {
-								mark(v)
+							if fa, ok := v.X.(*ssa.FieldAddr); ok {
+								if t.Fields[fieldOf(fa.X, fa.Field)] {
+									mark(v)
+								}
+								if t.FKeys[fieldOf(fa.X, fa.Field)] && !t.Keys[v] {
+									t.Keys[v] = true
+									changed = true
+								}
 							}
 						}
 					case *ssa.Field:
@@ -334,22 +315,27 @@ func (a *Analyzer) Entropy(rule string, funcs []*ssa.Function, attrSink bool) {
 							markOrigin(v.Addr, 0)
 						}
 					case *ssa.MapUpdate:
-						if t.Vals[v.Key] || t.Vals[v.Value] {
+						if t.Vals[v.Value] {
 							markOrigin(v.Map, 0)
+						}
+						if t.Vals[v.Key] {
+							markKeyOrigin(v.Map, 0)
 						}
 					case *ssa.Lookup:
 						if t.Vals[v.X] {
 							mark(v)
 						}
 					case *ssa.Range:
-						if t.Vals[v.X] {
-							mark(v)
-						}
 					case *ssa.Next:
-						if t.Vals[v.Iter] {
-							mark(v)
-						}
 					case *ssa.Extract:
+						if nx, ok := v.Tuple.(*ssa.Next); ok {
+							if rg, ok := nx.Iter.(*ssa.Range); ok {
+								if (v.Index == 1 && t.Keys[rg.X]) || (v.Index == 2 && t.Vals[rg.X]) {
+									mark(v)
+								}
+							}
+							continue
+						}
 						if t.Vals[v.Tuple] {
 							mark(v)
 						}
@@ -475,3 +461,170 @@ func (a *Analyzer) Entropy(rule string, funcs []*ssa.Function, attrSink bool) {
 }
 
 // SelfTest is replaced by the fixture-based self-test in selftest.go.
+
+// isSortedCopy: the range statement ranges an identifier that, in the statements preceding the loop
+// in the same block, was created fresh (make / slices.Clone), filled by copy, and sorted with a
+// total comparator.
+func (a *Analyzer) isSortedCopy(info *types.Info, body *ast.BlockStmt, rs *ast.RangeStmt) (bool, string) {
+	id, ok := ast.Unparen(rs.X).(*ast.Ident)
+	if !ok {
+		return false, "ranges " + exprKey(rs.X) + " directly: the order of visits follows the caller's order"
+	}
+	obj := objOf(info, id)
+	fresh, sorted, copied := false, false, false
+	why := ""
+	path := pathTo(body, rs)
+	if path == nil {
+		return false, "loop not located"
+	}
+	fr := path[len(path)-1]
+	for _, st := range fr.list[:fr.idx] {
+		switch s := st.(type) {
+		case *ast.AssignStmt:
+			for i, l := range s.Lhs {
+				lid, ok := l.(*ast.Ident)
+				if !ok || objOf(info, lid) != obj || i >= len(s.Rhs) {
+					continue
+				}
+				fresh, sorted, copied = false, false, false
+				if call, ok := s.Rhs[i].(*ast.CallExpr); ok {
+					if fid, ok := call.Fun.(*ast.Ident); ok && fid.Name == "make" {
+						fresh = true
+					}
+					if cf, _ := typeutil.Callee(info, call).(*types.Func); cf != nil && cf.Pkg() != nil && cf.Pkg().Path() == "slices" && cf.Name() == "Clone" {
+						fresh, copied = true, true
+					}
+				}
+			}
+		case *ast.ExprStmt:
+			call, ok := s.X.(*ast.CallExpr)
+			if !ok {
+				continue
+			}
+			if fid, ok := call.Fun.(*ast.Ident); ok && fid.Name == "copy" && len(call.Args) == 2 {
+				if did, ok := ast.Unparen(call.Args[0]).(*ast.Ident); ok && objOf(info, did) == obj {
+					copied = true
+				}
+				continue
+			}
+			if ok, w := a.sortCall(info, call, obj); ok {
+				sorted = true
+			} else if w != "" {
+				why = w
+			}
+		}
+	}
+	switch {
+	case !fresh || !copied:
+		return false, id.Name + " is not a fresh copy (make+copy / slices.Clone) of the caller's slice"
+	case !sorted:
+		return false, id.Name + " is not sorted by a total comparator before the loop. " + why
+	}
+	return true, ""
+}
+
+// FreshLabels (C10 clause 4 / C17 clause 1): wherever a node of kind OperatorNode is created, its
+// unique label must be derived from an entropy call made in the same function invocation (one
+// fresh node per operator occurrence). A label computed from the parent's label alone makes two
+// operators of the same kind under one parent collapse into one node.
+func (a *Analyzer) FreshLabels(rule string, funcs []*ssa.Function, nodeCallees []string, labelParam, kindParam string, operatorKind int64) {
+	n := 0
+	for _, f := range funcs {
+		for _, b := range f.Blocks {
+			for _, in := range b.Instrs {
+				call, ok := in.(*ssa.Call)
+				if !ok {
+					continue
+				}
+				callee := call.Common().StaticCallee()
+				if callee == nil {
+					continue
+				}
+				match := false
+				for _, c := range nodeCallees {
+					if callee.Name() == c {
+						match = true
+					}
+				}
+				if !match {
+					continue
+				}
+				var label, kind ssa.Value
+				for i, prm := range callee.Params {
+					if i >= len(call.Common().Args) {
+						break
+					}
+					if prm.Name() == labelParam {
+						label = call.Common().Args[i]
+					}
+					if prm.Name() == kindParam {
+						kind = call.Common().Args[i]
+					}
+				}
+				kc, ok := kind.(*ssa.Const)
+				if !ok || label == nil || kc.Value == nil || kc.Int64() != operatorKind {
+					continue
+				}
+				n++
+				construct := "fresh-operator-label:" + load.FuncName(f)
+				if derivedFromEntropyHere(label, f, 0) {
+					a.R.OK(rule, construct, a.pos(call.Pos()), "entropy-in-same-invocation", "operator label contains a ULID made in this invocation")
+				} else {
+					a.R.Bad(rule, construct, a.pos(call.Pos()), "the unique label of an operator node is not derived from a fresh random id made in the same invocation: two operators of one kind under the same parent would share a node")
+				}
+			}
+		}
+	}
+	if n == 0 {
+		a.R.Unknown(rule, "fresh-operator-label", "-", "no creation of an operator node found: anchor no longer resolves")
+	}
+}
+
+func derivedFromEntropyHere(v ssa.Value, f *ssa.Function, depth int) bool {
+	if depth > 10 {
+		return false
+	}
+	switch x := v.(type) {
+	case *ssa.Call:
+		if _, ok := isEntropyCall(x.Common()); ok {
+			return true
+		}
+		for _, a := range x.Common().Args {
+			if derivedFromEntropyHere(a, f, depth+1) {
+				return true
+			}
+		}
+		if x.Common().IsInvoke() {
+			return derivedFromEntropyHere(x.Common().Value, f, depth+1)
+		}
+	case *ssa.BinOp:
+		return derivedFromEntropyHere(x.X, f, depth+1) || derivedFromEntropyHere(x.Y, f, depth+1)
+	case *ssa.Phi:
+		for _, e := range x.Edges {
+			if !derivedFromEntropyHere(e, f, depth+1) {
+				return false
+			}
+		}
+		return len(x.Edges) > 0
+	case *ssa.MakeInterface:
+		return derivedFromEntropyHere(x.X, f, depth+1)
+	case *ssa.Convert:
+		return derivedFromEntropyHere(x.X, f, depth+1)
+	case *ssa.ChangeType:
+		return derivedFromEntropyHere(x.X, f, depth+1)
+	case *ssa.Slice:
+		// variadic operand list of Sprintf: any element derived from entropy
+		if al, ok := x.X.(*ssa.Alloc); ok && al.Referrers() != nil {
+			for _, ref := range *al.Referrers() {
+				if ia, ok := ref.(*ssa.IndexAddr); ok && ia.Referrers() != nil {
+					for _, r2 := range *ia.Referrers() {
+						if st, ok := r2.(*ssa.Store); ok && derivedFromEntropyHere(st.Val, f, depth+1) {
+							return true
+						}
+					}
+				}
+			}
+		}
+	}
+	return false
+}
